@@ -1328,6 +1328,11 @@ def _native_setget_sweep(tier="quick", seed=0):
         if got2 != want:
             bad = bad or "three runs and a shape link to [same, same, other, %s]; %s on the first run: after save / re-open addresses read %r, expected %r" % ("same" if with_shape else "shape", action, got2, want)
     rec("C09.native.assigning_a_hyperlink_leaves_the_other_links_alone", bad)
+    # "None restores inheritance" has a counterpart: what was never assigned stays inherited -- rotation, name, text, fill or line edits of
+    # a fresh placeholder do not give it a position or size of its own
+    from .c13 import _non_dimension_edits_keep_inheritance
+
+    rec("C09.native.unassigned_position_and_size_stay_inherited", _non_dimension_edits_keep_inheritance())
     # gradient stops are addressed by index: moving one stop past another changes neither which stop an index designates nor its colour
     from pptx.dml.color import RGBColor as _RGB
 
